@@ -90,7 +90,17 @@ def perform(a: Dict[str, Any], w, rng, rec) -> List[Dict[str, Any]]:
     kind = a["kind"]
     tg = [w.objs[n] for n in a.get("targets", [])]
     if kind == "op":
-        op = make_operation(a, w, tg)
+        cache = getattr(w, "_op_cache", None)
+        if cache is None:
+            cache = w._op_cache = {}
+        extra = []
+        if a.get("reuse") and a["reuse"] in cache:
+            op, snap = cache[a["reuse"]]
+        else:
+            op = make_operation(a, w, tg)
+            snap = {k: np.array(v).copy() for k, v in op.kwargs.items() if hasattr(v, "shape")}
+            if a.get("reuse"):
+                cache[a["reuse"]] = (op, snap)
         entry = a["entry"]
         if entry == "self":
             tg[0].apply_operation(op)
@@ -98,6 +108,10 @@ def perform(a: Dict[str, Any], w, rng, rec) -> List[Dict[str, Any]]:
             tg[0].envelope.apply_operation(op, *tg)
         else:
             W.ce_of(w, tg[0]).apply_operation(op, *tg)
-        return []
+        for k, before in snap.items():
+            same = np.array_equal(np.array(op.kwargs[k]), before)
+            extra.append({"prop": "C15", "clause": "user-supplied-arrays-are-not-modified", "ok": bool(same),
+                          "detail": "" if same else f"kwargs[{k!r}] changed", "method": "Operation"})
+        return extra
     from . import actions2
     return actions2.perform(a, w, rng, rec, tg)
